@@ -31,6 +31,17 @@ func runC11(c *Ctx) {
 	if sy == nil {
 		return
 	}
+	// "once the annotation is removed it resumes": the only thing that tells the controller so is the update event of
+	// the set, and a paused set has written nothing that would produce another one -- the set informer's handlers
+	// enqueue the set whatever has changed (the registration rule of C16, as a clause of this property)
+	{
+		n0 := len(c.Obs)
+		c.only = map[string]string{"C16.1-registration-target": "C11.4-unpausing-is-noticed"}
+		c.onlyConstruct = func(s string) bool { return !strings.Contains(strings.ToLower(s), "pod") }
+		runC16(c)
+		c.only, c.onlyConstruct = nil, nil
+		c.Floor("C11.4-set-informer-handlers", len(c.Obs)-n0, 3)
+	}
 	fn, an := c.Analysis(sy)
 	info := sy.Pkg.TypesInfo
 	// the set read from the lister
